@@ -14,10 +14,16 @@ use allocative::Allocative;
 use serde::{Deserialize, Deserializer, Serialize, Serializer};
 
 /// capacity of the table models. exceeding it is an assertion failure, never silent.
+/// (the search-loop step harnesses, feature `verif-step`, work on graphs of at most four vertices
+/// and use smaller tables: every table operation is unrolled over all slots.)
+#[cfg(not(feature = "verif-step"))]
 pub const CAP: usize = 8;
+#[cfg(feature = "verif-step")]
+pub const CAP: usize = 4;
 
 /// runs `$body` for `$i` = 0..CAP without a loop, so that lookups add no loop for the bounded
 /// model checker to unwind (callers pick their unwinding bound for their own loops only).
+#[cfg(not(feature = "verif-step"))]
 macro_rules! for_each_slot {
     ($i:ident, $body:block) => {{
         { let $i: usize = 0; $body }
@@ -28,6 +34,15 @@ macro_rules! for_each_slot {
         { let $i: usize = 5; $body }
         { let $i: usize = 6; $body }
         { let $i: usize = 7; $body }
+    }};
+}
+#[cfg(feature = "verif-step")]
+macro_rules! for_each_slot {
+    ($i:ident, $body:block) => {{
+        { let $i: usize = 0; $body }
+        { let $i: usize = 1; $body }
+        { let $i: usize = 2; $body }
+        { let $i: usize = 3; $body }
     }};
 }
 
@@ -105,6 +120,75 @@ impl<K, V> HashMap<K, V> {
         K: std::borrow::Borrow<Q>,
     {
         self.get(k).is_some()
+    }
+}
+
+impl<K, V> HashMap<K, V> {
+    pub fn get_mut<Q: ?Sized + PartialEq>(&mut self, k: &Q) -> Option<&mut V>
+    where
+        K: std::borrow::Borrow<Q>,
+    {
+        let mut at: Option<usize> = None;
+        for_each_slot!(i, {
+            if at.is_none() {
+                if let Some((sk, _)) = &self.slots[i] {
+                    if sk.borrow() == k {
+                        at = Some(i);
+                    }
+                }
+            }
+        });
+        match at {
+            Some(i) => self.slots[i].as_mut().map(|(_, v)| v),
+            None => None,
+        }
+    }
+
+    /// removes the entry; the last entry takes its slot (iteration order is unspecified anyway)
+    pub fn remove<Q: ?Sized + PartialEq>(&mut self, k: &Q) -> Option<V>
+    where
+        K: std::borrow::Borrow<Q>,
+    {
+        let mut at: Option<usize> = None;
+        for_each_slot!(i, {
+            if at.is_none() {
+                if let Some((sk, _)) = &self.slots[i] {
+                    if sk.borrow() == k {
+                        at = Some(i);
+                    }
+                }
+            }
+        });
+        match at {
+            Some(i) => {
+                let last = self.len - 1;
+                let removed = self.slots[i].take();
+                if i != last {
+                    let moved = self.slots[last].take();
+                    self.slots[i] = moved;
+                }
+                self.len = last;
+                removed.map(|(_, v)| v)
+            }
+            None => None,
+        }
+    }
+
+    pub fn clear(&mut self) {
+        for_each_slot!(i, {
+            self.slots[i] = None;
+        });
+        self.len = 0;
+    }
+
+    pub fn iter_mut(&mut self) -> impl Iterator<Item = (&K, &mut V)> + '_ {
+        self.slots
+            .iter_mut()
+            .filter_map(|s| s.as_mut().map(|(k, v)| (&*k, v)))
+    }
+
+    pub fn values_mut(&mut self) -> impl Iterator<Item = &mut V> + '_ {
+        self.iter_mut().map(|(_, v)| v)
     }
 }
 
@@ -403,6 +487,76 @@ impl<I: PartialEq, P: Ord> PriorityQueue<I, P> {
         } else {
             Some(priority)
         }
+    }
+
+    pub fn push_decrease(&mut self, item: I, priority: P) -> Option<P> {
+        if self.get_priority(&item).map_or(true, |p| priority < *p) {
+            self.push(item, priority)
+        } else {
+            Some(priority)
+        }
+    }
+
+    pub fn change_priority(&mut self, item: &I, new_priority: P) -> Option<P> {
+        let mut at: Option<usize> = None;
+        for_each_slot!(i, {
+            if at.is_none() {
+                if let Some((si, _)) = &self.slots[i] {
+                    if si == item {
+                        at = Some(i);
+                    }
+                }
+            }
+        });
+        match at {
+            Some(i) => self.slots[i]
+                .as_mut()
+                .map(|(_, sp)| std::mem::replace(sp, new_priority)),
+            None => None,
+        }
+    }
+
+    pub fn remove(&mut self, item: &I) -> Option<(I, P)> {
+        let mut at: Option<usize> = None;
+        for_each_slot!(i, {
+            if at.is_none() {
+                if let Some((si, _)) = &self.slots[i] {
+                    if si == item {
+                        at = Some(i);
+                    }
+                }
+            }
+        });
+        match at {
+            Some(i) => {
+                self.len -= 1;
+                self.slots[i].take()
+            }
+            None => None,
+        }
+    }
+
+    pub fn clear(&mut self) {
+        for_each_slot!(i, {
+            self.slots[i] = None;
+        });
+        self.len = 0;
+    }
+
+    /// AN item of maximal priority (see `pop`)
+    pub fn peek(&self) -> Option<(&I, &P)> {
+        if self.len == 0 {
+            return None;
+        }
+        let pick: usize = kani::any();
+        kani::assume(pick < CAP);
+        kani::assume(self.slots[pick].is_some());
+        for_each_slot!(i, {
+            if let (Some((_, sp)), Some((_, pp))) = (&self.slots[i], &self.slots[pick]) {
+                kani::assume(sp <= pp);
+            }
+        });
+        self.slots[pick].as_ref().map(|(i, p)| (i, p))
     }
 
     pub fn pop(&mut self) -> Option<(I, P)> {
